@@ -35,6 +35,12 @@ Failed(e) ==
   \*  that file; what it prints for a name it cannot spell is not compared)
   \cup (IF e.dry /\ ~(e.dst2 = e.dst /\ e.src2 = e.src /\ e.staging = 0 /\ (e.exit = 0 \/ e.unsendable)) THEN {"C15"} ELSE {})
   \cup (IF e.dry /\ ~e.unsendable /\ ~ShortCircuit(e.src, e.del) /\ ~(e.printed_send = AscSeq(tr) /\ e.printed_delete = AscSeq(de)) THEN {"C15"} ELSE {})
+  \* ... and a real run that reports success performs those very actions: every path the dry run lists under "delete" is gone,
+  \* no other path is, every path it lists under "send" is there (the bytes and times of what was sent are C04's business)
+  \cup (IF ~e.dry /\ e.exit = 0 /\ ~noop
+          /\ ~(/\ \A p \in de : e.dst2[p] = Absent
+               /\ \A p \in Dom(e.names) \ de : e.dst[p] # Absent => e.dst2[p] # Absent
+               /\ \A p \in tr : e.dst2[p] # Absent) THEN {"C15"} ELSE {})
 
 Conform(e) ==
   LET tr == Transfer(e.names, e.src, e.dst, e.pats)
